@@ -36,7 +36,7 @@ let string_of_zlist l =
 let hex l = if l = [] then "-" else String.concat "" (List.map (fun b -> Printf.sprintf "%02x" ((iz b) land 255)) l)
 
 (* ---- oracles ---- *)
-let exts : (string * string) list ref = ref []
+let exts : (Stdlib.String.t * Stdlib.String.t) list ref = ref []
 let ext_file name = match List.assoc_opt (string_of_zlist name) !exts with
   | Some p -> (try Some (zlist_of_string (read_file p)) with _ -> None)
   | None -> None
@@ -196,6 +196,83 @@ let do_di toks =
      | _ -> Printf.printf "DI %s = ?\n" (String.concat " " toks))
   | _ -> Printf.printf "DI ? badquery\n"
 
+(* ---- R-vs-M: the model's encoders applied to the parsed records must reproduce the library's bytes ---- *)
+let rec prefix_eq a b = match a, b with
+  | [], _ -> true
+  | x :: a', y :: b' -> iz x = iz y && prefix_eq a' b'
+  | _, [] -> false
+let same a b = List.length a = List.length b && prefix_eq a b
+
+let linked_hdr_of d =
+  if not (is_special d.dd_tag) then None else
+  match raw_of !img d with
+  | Some raw -> (match p_special raw with Some (SLinked h, _) -> Some h | _ -> None)
+  | None -> None
+
+let tables_of h =
+  link_tables (length !img) (fun t r -> element ext_file inflate !img (ds ()) t r) h.lh_ref (Z.to_nat h.lh_nblk)
+
+let do_reencode () =
+  (match !blocks with
+   | Some bl -> List.iter (fun b ->
+       let enc = block_encode b in
+       let ok = match sub0 !img b.blk_off (z (List.length enc)) with Some raw -> same enc raw | None -> false in
+       Printf.printf "RE blk %d %d %s\n" (iz b.blk_off) (iz b.blk_ndds) (if ok then "ok" else "DIFF")) bl
+   | None -> ());
+  List.iter (fun d ->
+    let t = iz d.dd_tag and r = iz d.dd_ref in
+    if is_special d.dd_tag then
+      (match raw_of !img d with
+       | Some raw -> (match p_special raw with
+           | Some (s, rest) ->
+             let enc = special_encode s in
+             let used = List.length raw - List.length rest in
+             Printf.printf "RE sp %d %d %s\n" (iz (base_tag d.dd_tag)) r
+               (if List.length enc = used && prefix_eq enc raw then "ok" else "DIFF");
+             (match s with
+              | SLinked h when iz h.lh_nblk > 0 && iz h.lh_nblk < 65536 ->
+                let rec go lref fuel =
+                  if fuel > 0 && lref <> 0 then
+                    (match elem 20 lref with
+                     | CBytes tb -> (match p_linktable (Z.to_nat h.lh_nblk) tb with
+                         | Some ((nx, refs), rest') ->
+                           Printf.printf "RE lt %d %d %s\n" r lref (if rest' = [] && same (linktable_encode nx refs) tb then "ok" else "DIFF");
+                           go (iz nx) (fuel - 1)
+                         | None -> Printf.printf "RE lt %d %d unparsable\n" r lref)
+                     | _ -> Printf.printf "RE lt %d %d unreadable\n" r lref) in
+                go (iz h.lh_ref) 1000
+              | _ -> ())
+           | None -> Printf.printf "RE sp %d %d unparsable\n" t r)
+       | None -> ())
+    else if t = 1962 then
+      (match elem 1962 r with
+       | CBytes b -> (match parse_vh b with Some v -> Printf.printf "RE vh %d %s\n" r (if same (vh_encode v) b then "ok" else "DIFF") | None -> ())
+       | _ -> ())
+    else if t = 1965 then
+      (match elem 1965 r with
+       | CBytes b -> (match parse_vg b with Some g -> Printf.printf "RE vg %d %s\n" r (if same (vg_encode g) b then "ok" else "DIFF") | None -> ())
+       | _ -> ())) (live (ds ()))
+
+(* the model of HLgetdatainfo on the block tables of a linked-block element *)
+let do_dimodel toks =
+  match toks with
+  | [tag; rf; count] ->
+    let t = int_of_string tag and r = int_of_string rf in
+    let cap = if count = "N" then None else Some (z (int_of_string count)) in
+    let head = Printf.sprintf "DM %d %d %s" t r count in
+    let run h =
+      let blk rr = match find_dd (ds ()) (z 20) rr with Some d -> Some (d.dd_off, d.dd_len) | None -> None in
+      (match hl_getdatainfo blk (tables_of h) h.lh_blen h.lh_length cap with
+       | Some (ret, out) -> Printf.printf "%s = %d%s\n" head (iz ret)
+                              (String.concat "" (List.map (fun (o, n) -> Printf.sprintf " %d:%d" (iz o) (iz n)) out))
+       | None -> Printf.printf "%s = -1\n" head) in
+    (match find_dd (ds ()) (z t) (z r) with
+     | Some d -> (match linked_hdr_of d with
+         | Some h -> run h
+         | None -> Printf.printf "%s = notlinked\n" head)
+     | None -> Printf.printf "%s = nosuch\n" head)
+  | _ -> Printf.printf "DM ? badquery\n"
+
 let show_content pfx id c = match c with
   | CBytes [] -> Printf.printf "%s %d none\n" pfx id
   | CBytes b -> Printf.printf "%s %d %s\n" pfx id (hex b)
@@ -219,6 +296,8 @@ let () =
            | None -> ())
        | "dds" :: _ -> List.iter (fun d -> Printf.printf "D %d %d %d %d\n" (iz d.dd_tag) (iz d.dd_ref) (iz d.dd_off) (iz d.dd_len)) (ds ())
        | "di" :: rest -> do_di rest
+       | "reencode" :: _ -> do_reencode ()
+       | "dimodel" :: rest -> do_dimodel rest
        | "sddata" :: n :: _ ->
          let n' = int_of_string n in
          (match sd_data n' with Some r -> show_content "SDDATA" n' (elem 702 r) | None -> Printf.printf "SDDATA %d none\n" n')
